@@ -220,11 +220,20 @@ Theorem C16_config_null_guard_necessary :
 Proof. exact null_guard_necessary. Qed.
 Print Assumptions C16_config_null_guard_necessary.
 
-(* v1: a null proposer entry is accepted, and it is the nil check of the lookup that turns it into
-   the fallback configuration. *)
+(* v1: a null proposer entry is accepted and resolves to the default entry (repaired lookup:
+   "present but null is no entry"), with or without the later nil check ... *)
+Theorem C16_config_v1_null_entry_uses_default :
+  let d := {| d1_fields_ok := true; d1_proposers := [(1, None)];
+              d1_default := Some {| p1_builder := Some {| b1_enabled := true; b1_relays := [7] |} |} |} in
+  decode true (DV1 d) = Ok (CV1 d) /\ lookup false (Some (CV1 d)) 0 1 = Ok [7] /\ lookup true (Some (CV1 d)) 0 1 = Ok [7].
+Proof. exact v1_null_entry_uses_default. Qed.
+Print Assumptions C16_config_v1_null_entry_uses_default.
+
+(* ... and that nil check is what protects a configuration without a default entry (refused by the
+   unmarshaller, so only reachable for a configuration built in code). *)
 Theorem C16_config_v1_nil_guard_necessary :
-  let d := {| d1_fields_ok := true; d1_proposers := [(1, None)]; d1_default := Some {| p1_builder := None |} |} in
-  decode true (DV1 d) = Ok (CV1 d) /\ lookup false (Some (CV1 d)) 0 1 = Panic /\ lookup true (Some (CV1 d)) 0 1 = Ok [].
+  let d := {| d1_fields_ok := true; d1_proposers := [(1, None)]; d1_default := None |} in
+  lookup false (Some (CV1 d)) 0 1 = Panic /\ lookup true (Some (CV1 d)) 0 1 = Ok [].
 Proof. exact v1_nil_guard_necessary. Qed.
 Print Assumptions C16_config_v1_nil_guard_necessary.
 
